@@ -17,6 +17,11 @@ CHECKS = {
                 rule=E1_RULE + ">=1 join, >=1 exit and >=1 leveragelp open/close, all successful"),
     "C06": dict(tests=[e1("TestC06", "lending")], assumptions=E1_ASSUME,
                 rule=E1_RULE + ">=1 repay (close / forced close) after >=1h of accrual and >=1 bond/unbond while a loan is outstanding"),
+    "C07": dict(tests=[dict(func="TestC07", quick=dict(checks=4800, shards=16, timeout=900), thorough=dict(checks=160000, shards=16, timeout=7000)),
+                       e1("TestC07Chain", "vault-chain", qchecks=320, tchecks=1600)],
+                assumptions=E1_ASSUME + ["keeper-level part (E3): MsgBond/MsgUnbond through the real router, Borrow/Repay through the stablestake keeper (their only production caller is leveragelp), interest accrual by the real BeginBlocker + UpdateInterestAndGetDebt on cache contexts",
+                             "rounding allowance = one share's worth rounded up plus one base unit, as stated in the property"],
+                rule="E3: rapid-generated op sequences bond/unbond/borrow/repay/accrue/round-trip on vaults from 1 to 1e12 base units with 4 lenders; non-trivial = a round trip at a redemption rate with >= 6 fractional digits or a granted borrow at utilisation >= 80%; distinct by op sequence. E1 part: " + E1_RULE + "fractional share value, bonds, an unbond and a granted loan"),
     "C08": dict(tests=[e1("TestC08", "leveragelp")], assumptions=E1_ASSUME,
                 rule=E1_RULE + ">=1 forced close, >=1 partial close and >=1 consolidating open"),
     "C09": dict(tests=[e1("TestC09", "perpetual")], assumptions=E1_ASSUME,
